@@ -1,8 +1,15 @@
 /-
 C13 - Versioned tables behave like a simple map with a 10-block undo window.
 Property theorems only; helper lemmas live in Brc20/Proofs.
+
+Reading guide.  `Hist.valAt h m` is "the value in force at the end of block m according to history h"
+(`none` = nothing at or below m, which is exactly when the Rust `reorg(m)` panics "Reorg too deep").
+`Hist.Ok h top` = keys strictly ascending, all ≤ top, non-empty (what `BTreeMap` + the stamping discipline give).
 -/
-import Brc20.Proofs.Hist
+import Brc20.Proofs.HistOps
+import Brc20.Proofs.Table
+import Brc20.Proofs.TableScan
+import Brc20.Proofs.Codec
 import Brc20.Gen.Constants
 
 namespace Brc20
@@ -10,5 +17,159 @@ open Hist
 
 /-- The window constant the model driver uses is the one in the source. -/
 theorem C13.window_is_source_constant : Gen.MAX_REORG_HISTORY_SIZE = 10 := by decide
+
+section
+variable {V : Type} [DecidableEq V]
+
+/-- `set` at a stamp `b` not below the newest stored one never panics; inside the window `m ≥ b - W` the new
+history answers `v` from block `b` on and what the old history answered below `b`; its newest value is `v`;
+and it holds at most `W + 1` versions if the old one did. -/
+theorem C13.hist_set_in_window (W : Nat) {h : Hist V} {top b : Nat} (o : Ok h top) (hb : top ≤ b) (v : V) :
+    ∃ h', Hist.set W h b v = some h' ∧ Ok h' b ∧
+      (∀ m, b ≤ m + W → valAt h' m = if b ≤ m then some (some v) else valAt h m) ∧
+      (h.length ≤ W + 1 → h'.length ≤ W + 1) ∧ latest h' = some v := by
+  obtain ⟨h', h1, h2, h3, h4, h5⟩ := set_spec W o hb v
+  exact ⟨h', h1, h2, h3, h4, h5⟩
+
+/-- Same for `unset` (a delete is the version `none`). -/
+theorem C13.hist_unset_in_window (W : Nat) {h : Hist V} {top b : Nat} (o : Ok h top) (hb : top ≤ b) :
+    ∃ h', Hist.unset W h b = some h' ∧ Ok h' b ∧
+      (∀ m, b ≤ m + W → valAt h' m = if b ≤ m then some none else valAt h m) ∧
+      (h.length ≤ W + 1 → h'.length ≤ W + 1) ∧ latest h' = none := by
+  obtain ⟨h', h1, h2, h3, h4, h5⟩ := unset_spec W o hb
+  exact ⟨h', h1, h2, h3, h4, h5⟩
+
+/-- A stamp below the newest stored key is refused loudly (panic), never recorded. -/
+theorem C13.hist_stale_stamp_refused {W : Nat} {h : Hist V} {b l : Nat} (hl : lastKey? h = some l) (hb : b < l)
+    (v : V) : Hist.set W h b v = none :=
+  set_panics hl hb v
+
+/-- Rollback of one history is exact or loud: it panics iff the history holds nothing at or below `n`;
+otherwise the surviving newest value is precisely the value that was in force at the end of block `n`,
+every later look-up `m` answers what the old history answered at `min m n`, and no version is added. -/
+theorem C13.hist_rollback_exact_or_loud {h : Hist V} {top : Nat} (o : Ok h top) (n : Nat) :
+    (Hist.reorg h n = none ↔ valAt h n = none) ∧
+    (∀ h', Hist.reorg h n = some h' →
+        valAt h n = some (latest h') ∧ (∀ m, valAt h' m = valAt h (min m n)) ∧ h'.length ≤ h.length) := by
+  obtain ⟨h1, h2⟩ := reorg_spec o n
+  refine ⟨h1, ?_⟩
+  intro h' hr
+  obtain ⟨ok', hv, hlen⟩ := h2 h' hr
+  refine ⟨?_, hv, hlen⟩
+  have := ok'.valAt_top (m := n) (Nat.min_le_right top n)
+  rw [hv n] at this
+  simpa using this
+
+/-- `is_old` is sound: a history that `commit(b)` drops has had one constant value throughout the window of `b`,
+so the value column alone answers every rollback target `m ≥ b - W` correctly. -/
+theorem C13.hist_old_is_constant {W : Nat} {h : Hist V} {top b : Nat} (o : Ok h top) (ho : isOld W h b = true)
+    {m : Nat} (hm : b ≤ m + W) : valAt h m = some (latest h) :=
+  isOld_const o ho hm
+
+end
+
+section
+variable {K V : Type} [DecidableEq K] [DecidableEq V]
+open Table
+
+/-- **The table refines the plain map.** From an empty directory, every legal API history of any length
+(set / unset with non-decreasing stamps, commit at any block, discard / reopen, rollback to a block at most
+`W` below and not above the newest block ever passed) runs without panic and leaves the table in simulation
+with the plain per-key-log specification `TSpec`. -/
+theorem C13.table_refines_map (W : Nat) (ops : List (TOp K V))
+    (hl : TSpec.legalRun W (TSpec.init : TSpec K V) ops) :
+    ∃ t', (Table.empty : Table K V).run W ops = some t' ∧ Sim W t' ((TSpec.init : TSpec K V).run ops) :=
+  run_sim (sim_init W) ops hl
+
+/-- Point reads of a table in simulation are the plain map's. -/
+theorem C13.reads_are_map_reads {W : Nat} {t : Table K V} {s : TSpec K V} (h : Sim W t s) (k : K) :
+    t.latest k = s.read k :=
+  sim_latest h k
+
+/-- Consequently, after any legal history, every point read equals the plain map's read. -/
+theorem C13.reads_after_any_history (W : Nat) (ops : List (TOp K V))
+    (hl : TSpec.legalRun W (TSpec.init : TSpec K V) ops) (k : K) :
+    ∃ t', (Table.empty : Table K V).run W ops = some t' ∧
+      t'.latest k = ((TSpec.init : TSpec K V).run ops).read k := by
+  obtain ⟨t', h1, h2⟩ := C13.table_refines_map W ops hl
+  exact ⟨t', h1, sim_latest h2 k⟩
+
+/-- **Rollback inside the window is exact**: it never panics and every key reads the value it had at the end
+of block `n` in the full log. -/
+theorem C13.rollback_in_window {W : Nat} {t : Table K V} {s : TSpec K V} (h : Sim W t s) (n : Nat)
+    (hw : s.maxEver ≤ n + W) (hn : n ≤ s.maxEver) :
+    ∃ t', t.reorg W n = some t' ∧ ∀ k, t'.latest k = s.readAt k n :=
+  Table.rollback_in_window h n hw hn
+
+/-- Commit is unobservable and durable: a reopened table reads what was readable before the commit. -/
+theorem C13.commit_then_reopen {W : Nat} {t : Table K V} {s : TSpec K V} (h : Sim W t s) (b : Nat) (k : K) :
+    ((t.commit W b).reopen).latest k = t.latest k :=
+  commit_then_reopen_reads h b k
+
+/-- Discard / reopen without commit is exactly the state of the last commit. -/
+theorem C13.discard_is_last_commit {W : Nat} {t : Table K V} {s : TSpec K V} (h : Sim W t s) (k : K) :
+    (t.clear).latest k = (s.dur k).latest :=
+  clear_reads_durable h k
+
+/-- No key keeps more than `W + 1` versions, in memory or on disk, along any legal history. -/
+theorem C13.versions_bounded {W : Nat} {t : Table K V} {s : TSpec K V} (h : Sim W t s) (hv : VersionsLe W t)
+    (op : TOp K V) (hl : TSpec.legal W s op) : ∀ t', t.step W op = some t' → VersionsLe W t' :=
+  versions_le_step h hv op hl
+
+/-- **Range scans are complete**: exactly the readable pairs with `lo ≤ k < hi` ... -/
+theorem C13.range_scan_complete {lt : K → K → Bool} (st : StrictTotal lt) {t : Table K V}
+    (hc : AMap.Nodup t.cache) (hd : AMap.Nodup t.db) (lo hi k : K) (v : V) :
+    (k, v) ∈ t.getRange lt lo hi ↔ (lt k lo = false ∧ lt k hi = true ∧ t.latest k = some v) :=
+  mem_getRange st hc hd lo hi k v
+
+/-- ... **in key order**, each key once ... -/
+theorem C13.range_scan_sorted {lt : K → K → Bool} (st : StrictTotal lt) {t : Table K V}
+    (hc : AMap.Nodup t.cache) (hd : AMap.Nodup t.db) (lo hi : K) :
+    (t.getRange lt lo hi).Pairwise (fun a b => lt a.1 b.1 = true) :=
+  getRange_sorted st hc hd lo hi
+
+/-- ... and **independent of the iteration order** of the in-memory `HashMap` and of where commits happened:
+two tables that read the same return the same scan. -/
+theorem C13.range_scan_order_independent {lt : K → K → Bool} (st : StrictTotal lt) {t t' : Table K V}
+    (hc : AMap.Nodup t.cache) (hd : AMap.Nodup t.db) (hc' : AMap.Nodup t'.cache) (hd' : AMap.Nodup t'.db)
+    (hl : ∀ k, t.latest k = t'.latest k) (lo hi : K) :
+    t.getRange lt lo hi = t'.getRange lt lo hi :=
+  getRange_order_independent st hc hd hc' hd' hl lo hi
+
+/-- Full scans return exactly the readable pairs. -/
+theorem C13.full_scan_complete {lt : K → K → Bool} (st : StrictTotal lt) {t : Table K V}
+    (hc : AMap.Nodup t.cache) (hd : AMap.Nodup t.db) (k : K) (v : V) :
+    (k, v) ∈ t.all lt ↔ t.latest k = some v :=
+  mem_all st hc hd k v
+
+/-- The duplicate-freeness the scan theorems assume is an invariant of every operation. -/
+theorem C13.columns_stay_maps {W : Nat} {t t' : Table K V} (h : ColsNodup t) (op : TOp K V)
+    (hs : t.step W op = some t') : ColsNodup t' :=
+  colsNodup_step h op hs
+
+end
+
+/-- The order RocksDB iterates in (byte-lexicographic on encoded keys) is a strict total order, so the scan
+theorems apply to the real key encoding. -/
+theorem C13.byte_order_is_strict_total : Table.StrictTotal bytesLt :=
+  ⟨bytesLt_irrefl, bytesLt_trans, bytesLt_total⟩
+
+/-! Non-vacuity: a concrete history meets the hypotheses, and the equations are not trivial on it. -/
+example : Ok ([(0, none), (3, some 7), (12, some 8)] : Hist Nat) 12 :=
+  ⟨by simp [Sorted], by intro e he; simp at he; rcases he with h | h | h <;> subst h <;> simp, by simp⟩
+example : Hist.set 10 ([(0, none), (3, some 7), (12, some 8)] : Hist Nat) 14 9
+    = some [(3, some 7), (12, some 8), (14, some 9)] := by decide
+example : Hist.reorg ([(3, some 7), (12, some 8), (14, some 9)] : Hist Nat) 2 = none := by decide
+example : valAt ([(3, some 7), (12, some 8), (14, some 9)] : Hist Nat) 13 = some (some 8) := by decide
+
+/-- A concrete legal history (writes, an idle stretch of 11 blocks, commit, rollback to the window edge)
+satisfies `legalRun`, so `C13.table_refines_map` is not vacuous. -/
+example : TSpec.legalRun 10 (TSpec.init : TSpec Nat Nat)
+    [.set 1 7 100, .set 2 7 101, .unset 3 8, .commit 3, .set 14 7 102, .commit 14, .clear, .reorg 4] := by
+  simp [TSpec.legalRun, TSpec.legal, TSpec.step, TSpec.init]
+
+example : ((Table.empty : Table Nat Nat).run 10
+    [.set 1 7 100, .set 2 7 101, .unset 3 8, .commit 3, .set 14 7 102, .commit 14, .clear, .reorg 4]).map
+      (fun t => t.latest 7) = some (some 101) := by decide
 
 end Brc20
